@@ -493,7 +493,7 @@ def rule_cs_extws(cx, rep, port):
     regs = _module_regexes(cx, port)
     mcall = [c for c in walk_no_nested(ef) if isinstance(c, ast.Call) and isinstance(c.func, ast.Attribute) and c.func.attr in ('match', 'exec') and isinstance(c.func.value, ast.Name)]
     pats = None
-    if len(mcall) == 1 and not sel:
+    if len(mcall) == 1:
         # the pattern object applied to the line, evaluated once with the switch on and once with it off (helpers and pure memo tables are followed)
         sw = ef.args.args[3].arg
         ev = _PatEval(cx, port, regs)
